@@ -176,7 +176,10 @@ def expand_procedures(func: ast.FunctionDef, resolver, depth: int = 0) -> ast.Fu
 class Flow:
     def __init__(self, func: ast.FunctionDef, file: str = "", consts: dict | None = None,
                  self_name: str | None = None, keep_arms: bool = False, resolver=None, _depth: int = 0, _env: dict | None = None,
-                 proc_resolver=None, func_resolver=None, raise_arms: bool = False, inline_loops: bool = False, _uid=None):
+                 proc_resolver=None, func_resolver=None, raise_arms: bool = False, inline_loops: bool = False, _uid=None,
+                 records: dict | None = None):
+        # records: {class name: (field, ..)} of immutable record types (NamedTuple): `X(u, v).a` is read as `u`
+        self._records_arg = records or {}
         # proc_resolver: name -> FunctionDef of a helper PROCEDURE of the same class, expanded in place as statements
         # func_resolver: name -> FunctionDef of a small pure MODULE-LEVEL helper function called by its bare name (inlined)
         # raise_arms: an inlined helper's `raise` paths become ("raise", exc) leaves of the phi value (a dispatch chain moved into a
@@ -207,7 +210,8 @@ class Flow:
         self._if_tests: dict = {}
         self._loop_stored: list = []
         self.consts = consts or {}
-        self.records = getattr(func, "_sa_records", None) or {}
+        self.records = dict(getattr(func, "_sa_records", None) or {})
+        self.records.update(self._records_arg)
         self.acc = self._find_acc(func)
         a = func.args
         allargs = a.posonlyargs + a.args + a.kwonlyargs
@@ -667,7 +671,7 @@ class Flow:
                 if preset[p_] is None:
                     return None
         sub = Flow(callee, self.file, keep_arms=False, resolver=self.resolver, _depth=self._depth + 1, _env=preset, consts=self.consts,
-                   func_resolver=self.func_resolver, raise_arms=self.raise_arms, inline_loops=self.inline_loops, _uid=self._uid if self.inline_loops else None)
+                   func_resolver=self.func_resolver, raise_arms=self.raise_arms, inline_loops=self.inline_loops, _uid=self._uid if self.inline_loops else None, records=self._records_arg)
         rets = [(f.value if f.kind == "return" else ("raise", f.value if f.value is not None else ("const", None)), list(f.guards))
                 for f in sub.facts if f.kind == "return" or (f.kind == "raise" and self.raise_arms)]
         if not any(f.kind == "return" for f in sub.facts) or any(f.kind in ("store", "augstore", "attrstore", "append", "mutate") for f in sub.facts):
@@ -892,8 +896,35 @@ class Flow:
                 assigned.add(node.value.func.value.id)
         return assigned
 
-    def s_For(self, s):
-        it = strip_transparent(self.ev(s.iter))
+    @staticmethod
+    def _iter_parts(it):
+        """the iterables visited one after the other by `chain(A, B, ..)` / `itertools.chain(..)` / `chain.from_iterable([A, B])`
+        (transparent wrappers stripped), or None"""
+        it = strip_transparent(it)
+        args = None
+        if it[0] == "call" and it[1] == ("global", "chain") and not it[3]:
+            args = it[2]
+        elif it[0] == "meth" and it[1] == ("global", "itertools") and it[2] == "chain" and not it[4]:
+            args = it[3]
+        elif it[0] == "meth" and it[2] == "from_iterable" and it[1] in (("global", "chain"), ("attr", ("global", "itertools"), "chain")) and len(it[3]) == 1 \
+                and it[3][0][0] in ("list", "tuple") and not it[4]:
+            args = it[3][0][1]
+        if not args or len(args) > 4 or any(a[0] == "star" for a in args):
+            return None
+        out = []
+        for a in args:
+            out.extend(Flow._iter_parts(a) or [strip_transparent(a)])
+        return out
+
+    def s_For(self, s, _it=None):
+        it = strip_transparent(self.ev(s.iter)) if _it is None else _it
+        # loop fission: `for T in chain(A, B): body` runs the body for the items of A, then for the items of B -- it is
+        # `for T in A: body` followed by `for T in B: body` (no break / else that would tie the two together)
+        parts = self._iter_parts(it) if _it is None and not s.orelse else None
+        if parts and len(parts) > 1 and not any(isinstance(n, ast.Break) for b in s.body for n in ast.walk(b)):
+            for part in parts:
+                self.s_For(s, _it=part)
+            return
         lp = Loop(next(self._uid), it, ast.unparse(s.target), s.lineno, nguards=len(self._guards()), gdepth=len(self._guards()))
         self.all_loops[lp.id] = lp
         assigned = self._carry(s.body, lp)
@@ -1640,9 +1671,11 @@ def simp(v):
             n = hi[3] if hi[2] == lo else hi[2] if hi[3] == lo else None
             if n is not None:
                 return ("binop", "Add", lo, ("elem", ("call", ("global", "range"), (n,), ()), v[2]))
-    # every element of itertools.repeat(c) is c  (`zip(repeat(sign), rows)`: a constant column of a table)
-    if k == "elem" and v[1][0] == "call" and v[1][1] in (("global", "repeat"), ("attr", ("global", "itertools"), "repeat")) and len(v[1][2]) == 1 and not v[1][3]:
+    # every element of itertools.repeat(c[, n]) is c
+    if k == "elem" and v[1][0] == "call" and v[1][1] in (("global", "repeat"), ("attr", ("global", "itertools"), "repeat")) and 1 <= len(v[1][2]) <= 2 and not v[1][3]:
         return v[1][2][0]
+    if k == "elem" and v[1][0] == "meth" and v[1][1] == ("global", "itertools") and v[1][2] == "repeat" and 1 <= len(v[1][3]) <= 2 and not v[1][4]:
+        return v[1][3][0]
     if k == "elem" and v[1][0] in ("phi", "ifexp"):
         return ("phi", v[1][1], simp(("elem", v[1][2], v[2])), simp(("elem", v[1][3], v[2])))
     if k == "elem":
